@@ -33,74 +33,91 @@ def run(ctx, rep):
         return
     rep.fn(p)
     b = fx.bodies[p]
-    body = F.strip(b["body"])
-    calls = [n for n in F.walk(b["body"]) if n.get("k") == "Call"]
-    v5 = [n for n in calls if is_new_v5(n)]
-    rep.check("C18.1", "C18.1/single-call", is_new_v5(body) and len(v5) == 1, loc=F.short_file(b["sp"]), found=F.pp(b["body"])[:300],
-              expected="uuid() is exactly one Uuid::new_v5(NS, data) call")
-    if len(v5) != 1:
-        return
-    ns_arg, data_arg = v5[0]["args"]
-    d = FL.peel(data_arg)
-    ok_data = d.get("k") == "Field" and d["name"] == "source" and F.strip(d["e"]).get("k") == "Var" and F.strip(d["e"])["name"] == "self"
-    rep.check("C18.1", "C18.1/data-is-source", ok_data, loc=F.loc(v5[0]), found="data argument = %s" % F.pp(data_arg),
-              expected="data = self.source (the raw bytes, no transformation)")
-    # namespace: Deref::deref(&NAMESPACE static) whose lazy initialiser is new_v5(NAMESPACE_DNS, b"guardsquare.com")
-    ns = FL.peel(ns_arg)
-    st = None
-    if F.is_call(ns, "std::ops::Deref::deref"):
-        inner = FL.peel(ns["args"][0])
-        if inner.get("k") == "Static":
-            st = inner["path"]
-    rep.check("C18.2", "C18.2/namespace-static", st is not None and st.endswith("uuid::NAMESPACE"), loc=F.loc(v5[0]), found="namespace argument = %s" % F.pp(ns_arg)[:200],
-              expected="the lazy_static NAMESPACE declared inside uuid()")
-    inits = [bb for q, bb in fx.bodies.items() if q.endswith("__static_ref_initialize") and "uuid::NAMESPACE" in q]
-    ok_init = False
-    desc = "initialiser not found"
-    if len(inits) == 1:
-        ib = F.strip(inits[0]["body"])
-        desc = F.pp(ib)
-        if is_new_v5(ib):
-            a0, a1 = FL.peel(ib["args"][0]), FL.peel(ib["args"][1])
-            ok_init = a0.get("k") == "Const" and a0["path"].endswith("Uuid::NAMESPACE_DNS") or (a0.get("k") == "Const" and a0["path"].endswith("NAMESPACE_DNS"))
-            ok_init = ok_init and a1.get("k") == "Lit" and a1["lit"]["t"] == "bytes" and bytes(a1["lit"]["v"]) == b"guardsquare.com"
-        rep.fn(inits[0]["path"])
-    rep.check("C18.2", "C18.2/namespace-value", ok_init, loc=F.short_file(inits[0]["sp"]) if inits else "", found=desc,
-              expected='Uuid::new_v5(&Uuid::NAMESPACE_DNS, b"guardsquare.com")')
-    # the lazy plumbing returns the initialiser's value: deref -> __stability -> Lazy::get(LAZY, __static_ref_initialize)
-    stab = [bb for q, bb in fx.bodies.items() if q.endswith("deref::__stability") and "uuid::NAMESPACE" in q]
-    ok_lazy = False
-    if len(stab) == 1:
-        sb_ = F.strip(stab[0]["body"])
-        ok_lazy = sb_.get("k") == "Call" and sb_["fn"]["path"].startswith("lazy_static::lazy::Lazy") and sb_["fn"]["path"].endswith("::get") and \
-            any(F.strip(a).get("k") == "Zst" and F.strip(a).get("fn", {}).get("path", "").endswith("__static_ref_initialize") for a in sb_["args"])
-    rep.check("C18.2", "C18.2/lazy-plumbing", ok_lazy, found=F.pp(stab[0]["body"])[:200] if stab else "-", expected="Lazy::get(&LAZY, __static_ref_initialize)", nontrivial=False)
-    # every construction of ProguardMapping
+    import sym as S
+    from sym import mk_field
+    sy = S.Sym(fx, inline_depth=10)
+    try:
+        res = sy.eval_body(b)
+    except S.Undecidable as e:
+        rep.undecidable("C18.1", "C18.1/uuid/shape", loc=F.loc(e.node) if isinstance(e.node, dict) else "", construct=e.msg)
+        res = None
+    if res is not None:
+        # canonical value of uuid(): helpers, locals, the lazy_static plumbing (Deref -> Lazy::get(init)) are evaluated away
+        single = len(res) == 1 and not res[0][0].conds and not res[0][0].effects
+        v = res[0][1][1] if single else None
+        is_v5 = v is not None and v[0] == "call" and v[1].startswith("uuid::") and v[1].endswith("new_v5") and len(v[2]) == 2
+        rep.check("C18.1", "C18.1/single-call", bool(is_v5), loc=F.short_file(b["sp"]), found=[S.tstr(o[1])[:300] for st, o in res],
+                  expected="uuid() is exactly one Uuid::new_v5(NS, data), unconditionally and without side effects")
+        if is_v5:
+            ns, data = v[2]
+            rep.check("C18.1", "C18.1/data-is-source", data == mk_field(("in", "self"), "source"), loc=F.short_file(b["sp"]), found="data argument = %s" % S.tstr(data)[:200],
+                      expected="data = self.source (the raw bytes, no transformation)")
+
+            def is_domain(t):
+                if t[0] == "lit" and t[1] == "bytes":
+                    return bytes(t[2]) == b"guardsquare.com"
+                if t[0] == "lit" and t[1] == "str":
+                    return False
+                if t[0] == "const" and t[2]:
+                    return t[2].lstrip("*&") == 'b"guardsquare.com"'
+                if t[0] == "call" and t[1].endswith("str::as_bytes") and t[2][0][0] == "lit" and t[2][0][1] == "str":
+                    return t[2][0][2] == "guardsquare.com"
+                return False
+            ok_ns = ns[0] == "call" and ns[1].startswith("uuid::") and ns[1].endswith("new_v5") and len(ns[2]) == 2 \
+                and ns[2][0][0] == "const" and ns[2][0][1].endswith("NAMESPACE_DNS") and ns[2][0][1].startswith("uuid::") and is_domain(ns[2][1])
+            rep.check("C18.2", "C18.2/namespace-value", ok_ns, loc=F.short_file(b["sp"]), found="namespace = %s" % S.tstr(ns)[:300],
+                      expected='Uuid::new_v5(&Uuid::NAMESPACE_DNS, b"guardsquare.com") (through any helper / lazy_static)')
+    # every construction of ProguardMapping: the function that contains it evaluates to a mapping over untouched bytes
     cons = []
-    for q, bb in fx.bodies.items():
+    for q, bb in sorted(fx.bodies.items()):
         if bb["krate"] != "proguard":
             continue
-        for n in F.walk(bb["body"]):
-            if n.get("k") == "Adt" and n["adt"].endswith("mapping::ProguardMapping"):
-                cons.append((q, bb, n))
-    rep.floor("C18.1", len(cons), 3, "construction sites of ProguardMapping (new, section, Default)")
-    for q, bb, n in cons:
-        srcf = [f for f in n["fields"] if f["name"] == "source"]
-        v = FL.peel(srcf[0]["e"]) if srcf else None
-        how = None
-        if v is not None:
-            if v.get("k") == "Var" and any(prm.get("pat") and prm["pat"].get("k") == "Bind" and prm["pat"].get("id") == v["id"] for prm in bb["params"]):
-                how = "the constructor argument itself"
-            elif F.is_call(v, "std::ops::Index::index") and FL.peel(v["args"][0]).get("k") == "Field" and FL.peel(v["args"][0])["name"] == "source" \
-                    and FL.peel(v["args"][1]).get("k") == "Var":
-                how = "sub-slice of self.source by the caller's range"
-            elif F.is_call(v, "std::default::Default::default"):
-                how = "Default (empty slice)"
-            elif F.is_call(v, "std::clone::Clone::clone") and FL.peel(v["args"][0]).get("k") == "Field" and FL.peel(v["args"][0])["name"] == "source":
-                how = "clone of self.source (a shared slice reference)"
+        if any(n.get("k") == "Adt" and n["adt"].endswith("mapping::ProguardMapping") for n in F.walk(bb["body"])):
+            cons.append((q, bb))
+    rep.floor("C18.1", len(cons), 2, "functions constructing a ProguardMapping (new, section, Default/Clone)")
+    for q, bb in cons:
         rep.fn(q)
-        rep.check("C18.1", "C18.1/construction/%s" % C.short_fn(q), how is not None, loc=F.loc(n), found="source: %s%s" % (F.pp(srcf[0]["e"]) if srcf else "?", (" -- " + how) if how else ""),
-                  expected="source bytes stored untouched (argument, sub-slice of source, or Default)")
+        try:
+            r2 = S.Sym(fx, inline_depth=6).eval_body(bb)
+        except S.Undecidable as e:
+            rep.undecidable("C18.1", "C18.1/construction/%s/shape" % C.short_fn(q), loc=F.loc(e.node) if isinstance(e.node, dict) else "", construct=e.msg)
+            continue
+        params = [prm["pat"]["name"] for prm in bb["params"] if prm.get("pat") and prm["pat"].get("k") == "Bind"]
+        how = []
+        for st, (k, v) in r2:
+            h = None
+            srcs = []
+
+            def g(t):
+                if t[0] == "adt" and t[1] == "ProguardMapping":
+                    srcs.append(dict(t[3]).get("source"))
+                return None
+            import fc
+            fc.rewrite(v, g)
+            for sv in srcs:
+                if sv is None:
+                    h = None
+                elif sv[0] == "in" and sv[1] in params and not st.effects:
+                    h = "the constructor argument itself"
+                elif sv == mk_field(("in", "self"), "source") or (sv[0] == "call" and sv[1].endswith("Clone::clone") and sv[2] == (mk_field(("in", "self"), "source"),)):
+                    h = "self.source (a shared slice reference)"
+                elif sv[0] == "call" and sv[1] == "std::ops::Index::index" and sv[2][0] == mk_field(("in", "self"), "source") and sv[2][1][0] == "in" and sv[2][1][1] in params:
+                    h = "sub-slice of self.source by the caller's range"
+                elif sv[0] == "default" or sv == ("array", ()) or (sv[0] == "lit" and sv[1] == "bytes" and len(sv[2]) == 0):
+                    h = "the empty slice"
+                else:
+                    h = None
+                how.append((S.tstr(sv)[:120] if sv else "?", h))
+        rep.check("C18.1", "C18.1/construction/%s" % C.short_fn(q), bool(how) and all(h for _, h in how), loc=F.short_file(bb["sp"]),
+                  found=["source: %s -- %s" % (a_, h or "NOT an untouched byte slice") for a_, h in how] or "no ProguardMapping value found",
+                  expected="source bytes stored untouched (argument, sub-slice of source selected by the caller, self.source, or empty)")
+    # the bytes the mapping *is* (what every other API iterates) are exactly `source`
+    import api_rules as AR
+    AR.check_mapping_wiring(fx, rep, "C18.api")
+    adt_ = fx.adt("proguard::mapping::ProguardMapping")
+    flds = [f_["name"] for f_ in adt_["variants"][0]["fields"]] if adt_ else []
+    rep.check("C18.1", "C18.1/single-field", flds == ["source"], loc=F.short_file(adt_["sp"]) if adt_ else "", found="ProguardMapping fields: %s" % flds,
+              expected="the mapping is its byte slice and nothing else (a window/offset/cache field would make `the bytes` ambiguous)", nontrivial=False)
     # no assignment to .source anywhere
     writes = []
     for q, bb in fx.bodies.items():
@@ -114,7 +131,21 @@ def run(ctx, rep):
     rep.check("C18.1", "C18.1/no-source-mutation", not writes, found=writes or "no assignment to ProguardMapping.source", expected="source is write-once", nontrivial=False)
     # ambient scan over everything reachable from uuid()
     seen = fx.reachable([p])
-    amb = [(q, n, w) for q, n, w in E.ambient_sources(fx, seen) if not (n.get("k") == "Static" and "uuid::NAMESPACE" in n.get("path", ""))]
+    # statics generated by lazy_static! (the unit-struct static X with `impl Deref for X` and its inner `LAZY` cell) are not ambient:
+    # their value is the initialiser's value, which C18.2 evaluates
+    lazy_roots = set()
+    for q in fx.bodies:
+        m_ = re.match(r"^proguard::<(.+) as std::ops::Deref>::deref::__stability$", q)
+        if m_:
+            lazy_roots.add("proguard::" + m_.group(1))
+
+    def is_lazy_static(n):
+        if n.get("k") != "Static":
+            return False
+        pth = re.sub(r"(::)?<'[a-z_]+>", "", n.get("path", ""))
+        roots = {re.sub(r"(::)?<'[a-z_]+>", "", r_) for r_ in lazy_roots}
+        return pth in roots or any(pth == "proguard::<%s as std::ops::Deref>::deref::__stability::LAZY" % r_[len("proguard::"):] for r_ in roots)
+    amb = [(q, n, w) for q, n, w in E.ambient_sources(fx, seen) if not is_lazy_static(n)]
     rep.check("C18.3", "C18.3/ambient", not amb, found=[(C.short_fn(q), w) for q, n, w in amb] or "%d reachable local bodies, no ambient source" % len(seen),
               expected="identifier depends on nothing but the bytes")
     pins = CR.lock_pins()
